@@ -52,6 +52,13 @@ def build(case):
     rng = random.Random(case["wseed"])
     shape = tuple(case["shape"])
     wcs = W.make_wcs(rng, shape, case["fam"], True)
+    if case["wseed"] % 4 == 1:
+        # a primary WCS that declares pixel bounds (the optional APE-14 attribute; a gWCS with a bounding box does)
+        # next to extra coordinates that declare none
+        pb = [(-0.5, n - 0.5) for n in shape[::-1]]
+        if isinstance(wcs, W.ProbeWCS):
+            wcs._bounds = pb        # (on the exact probe family only: astropy's FITS WCS changes its own world_to_pixel
+                                    #  behaviour at the bounds, which is not what is examined here)
     cube = None
     if case["wseed"] % 7 == 3:
         # (one cube in seven is reached by slicing a larger one by ranges: see common.via_slicing)
